@@ -166,6 +166,8 @@ def run(ctx):
                       {"classes": inf["classes"], "version": inf["version"], "events": t["ev"],
                        "line": inf.get("line", b"")})
     res.add_validation(stats, accepted)
+    from .. import manager_phase
+    manager_phase.run_phase(ctx, res, "C03")
     res.coverage["line_classes"] = len(v5) + len(v1)
     for t in traces[:2]:
         res.sample({"classes": info[t["id"]]["classes"], "events": t["ev"]})
